@@ -1,17 +1,1053 @@
-//! module `mock` — streams `mock.*` (not built yet).
+//! module `mock` (serves C20) — MockDisplay is a faithful test oracle.
+//!
+//! Streams (op lines; every result line is compared with the Lean model `EG.Model.MockDisplay`):
+//!   mock.hist <ty> <ao> <ab> <k> <op>*k <ao2> <ab2> <k2> <op>*k2
+//!       two histories on two fresh displays (flags allow_overdraw / allow_out_of_bounds_drawing);
+//!       each history stops at its first panic (every real call runs under `catch_unwind`; the
+//!       display is then inspected in the state the panic left it in).
+//!       op tokens:  p:x,y,c  draw_pixel        i:x,y,c;x,y,c  draw_iter batch (`i:-` empty)
+//!                   f:x,y,w,h,c  fill_solid    g:x,y,w,h:c,c,..  fill_contiguous (`-` no colours)
+//!                   s:x,y,c | s:x,y,n  set_pixel Some(c) / None      c:c  clear
+//!                   o:0|1  set_allow_overdraw  b:0|1  set_allow_out_of_bounds_drawing
+//!       -> n=<ops completed> st=<ok|panic> c=<get_pixel dump of the 64x64 cells, row-major>
+//!          aa=<affected_area> n2= st2= c2h=<fnv of the second dump> eq=<0|1> diff=<dump of diff()>
+//!          dh=<fnv of the {:?} text> rt=<1|0|pw|ph|pr|pc: from_pattern(Debug rows) == display>
+//!   mock.pattern <ty> <k> <|row>*k     (`_` stands for a space)
+//!       -> ok c= aa= e=<empty rows> dbg=<Debug rows> rt= sw=<fnv swap_xy dump> mp=<fnv map dump>
+//!        | err=<width|height|row|char>
+//!   mock.get <x> <y>      get_pixel on a fixed display (cell i = None if i%3==0 else Some(i+1)), any i32
+//!       -> some:<c> | none | panic
+//!   mock.c2ch <ty> <c,..>       color_to_char, as char codes
+//!   mock.ch2c <ty> <code,..>    char_to_color, `p` = panic
+//!
+//! Oracle: the property text as predicates against an independent reference (a plain HashMap
+//! history kept by `RefD`, rectangles enumerated with i64 loops, palettes from a bit-layout table).
+//!   Lean statements mirrored: `history_refines_map` (class get-pixel-last-drawn), `panics_iff`
+//!   (panic-iff), `eq_iff_cells` / `diff_empty_iff` (eq-iff-cells, diff-empty-iff, diff-colours),
+//!   `affected_area_tight` (affected-area-tight), `pattern_debug_roundtrip` /
+//!   `debug_pattern_roundtrip` (pattern-debug-roundtrip, debug-rows, from-pattern-cells,
+//!   from-pattern-panic), `char_color_roundtrip` (color-mapping-roundtrip).
 use crate::common::*;
+use embedded_graphics::{
+    mock_display::{ColorMapping, MockDisplay},
+    pixelcolor::*,
+    prelude::*,
+    primitives::Rectangle,
+    Pixel,
+};
+use std::collections::HashMap;
+use std::panic::{catch_unwind, AssertUnwindSafe};
 
 pub struct M;
+
+const TYPES: [&str; 12] = [
+    "binary", "gray2", "gray4", "gray8", "rgb332", "rgb444", "rgb555", "bgr555", "rgb565", "bgr565", "rgb888", "bgr888",
+];
+
+/// raw bit width of a colour type
+fn bits(ty: &str) -> u32 {
+    match ty {
+        "binary" => 1,
+        "gray2" => 2,
+        "gray4" => 4,
+        "gray8" | "rgb332" => 8,
+        "rgb444" => 12,
+        "rgb555" | "bgr555" => 15,
+        "rgb565" | "bgr565" => 16,
+        _ => 24,
+    }
+}
+
+/// (r bits, g bits, b bits, bgr order) — independent of the library's constants
+fn layout(ty: &str) -> Option<(u32, u32, u32, bool)> {
+    match ty {
+        "rgb332" => Some((3, 3, 2, false)),
+        "rgb444" => Some((4, 4, 4, false)),
+        "rgb555" => Some((5, 5, 5, false)),
+        "bgr555" => Some((5, 5, 5, true)),
+        "rgb565" => Some((5, 6, 5, false)),
+        "bgr565" => Some((5, 6, 5, true)),
+        "rgb888" => Some((8, 8, 8, false)),
+        "bgr888" => Some((8, 8, 8, true)),
+        _ => None,
+    }
+}
+
+/// The documented character set of a colour type with the colour each character stands for.
+fn palette(ty: &str) -> Vec<(char, u32)> {
+    match ty {
+        "binary" => vec![('.', 0), ('#', 1)],
+        "gray2" => "0123".chars().enumerate().map(|(i, c)| (c, i as u32)).collect(),
+        "gray4" => "0123456789ABCDEF".chars().enumerate().map(|(i, c)| (c, i as u32)).collect(),
+        "gray8" => "0123456789ABCDEF".chars().enumerate().map(|(i, c)| (c, i as u32 * 17)).collect(),
+        _ => {
+            let (rb, gb, bb, bgr) = layout(ty).unwrap();
+            let (rp, gp, bp) = if bgr { (0, rb, rb + gb) } else { (gb + bb, bb, 0) };
+            let r = ((1u32 << rb) - 1) << rp;
+            let g = ((1u32 << gb) - 1) << gp;
+            let b = ((1u32 << bb) - 1) << bp;
+            vec![('K', 0), ('R', r), ('G', g), ('B', b), ('Y', r | g), ('M', r | b), ('C', g | b), ('W', r | g | b)]
+        }
+    }
+}
+
+/// characters `from_pattern` accepts (besides the space), with their colour
+fn accepted(ty: &str, ch: char) -> Option<u32> {
+    match ty {
+        "gray4" | "gray8" => {
+            let d = match ch {
+                '0'..='9' => ch as u32 - '0' as u32,
+                'a'..='f' => ch as u32 - 'a' as u32 + 10,
+                'A'..='F' => ch as u32 - 'A' as u32 + 10,
+                _ => return None,
+            };
+            Some(if ty == "gray8" { d * 17 } else { d })
+        }
+        _ => palette(ty).iter().find(|(c, _)| *c == ch).map(|(_, v)| *v),
+    }
+}
+
+#[derive(Clone, Debug)]
+enum Op {
+    P(Point, u32),
+    I(Vec<(Point, u32)>),
+    F(Rectangle, u32),
+    G(Rectangle, Vec<u32>),
+    S(Point, Option<u32>),
+    C(u32),
+    O(bool),
+    B(bool),
+}
+
+fn parse_i(s: &str) -> i32 {
+    s.parse().expect("bad int")
+}
+fn parse_u(s: &str) -> u32 {
+    s.parse().expect("bad nat")
+}
+
+fn nums(s: &str) -> Vec<&str> {
+    s.split(',').collect()
+}
+
+fn parse_op(tok: &str) -> Op {
+    let parts: Vec<&str> = tok.split(':').collect();
+    match parts[0] {
+        "p" => {
+            let a = nums(parts[1]);
+            Op::P(Point::new(parse_i(a[0]), parse_i(a[1])), parse_u(a[2]))
+        }
+        "i" => {
+            if parts[1] == "-" {
+                Op::I(vec![])
+            } else {
+                Op::I(
+                    parts[1]
+                        .split(';')
+                        .map(|e| {
+                            let a = nums(e);
+                            (Point::new(parse_i(a[0]), parse_i(a[1])), parse_u(a[2]))
+                        })
+                        .collect(),
+                )
+            }
+        }
+        "f" => {
+            let a = nums(parts[1]);
+            Op::F(
+                Rectangle::new(Point::new(parse_i(a[0]), parse_i(a[1])), Size::new(parse_u(a[2]), parse_u(a[3]))),
+                parse_u(a[4]),
+            )
+        }
+        "g" => {
+            let a = nums(parts[1]);
+            let cs = if parts[2] == "-" { vec![] } else { parts[2].split(',').map(parse_u).collect() };
+            Op::G(Rectangle::new(Point::new(parse_i(a[0]), parse_i(a[1])), Size::new(parse_u(a[2]), parse_u(a[3]))), cs)
+        }
+        "s" => {
+            let a = nums(parts[1]);
+            Op::S(Point::new(parse_i(a[0]), parse_i(a[1])), if a[2] == "n" { None } else { Some(parse_u(a[2])) })
+        }
+        "c" => Op::C(parse_u(parts[1])),
+        "o" => Op::O(parts[1] == "1"),
+        "b" => Op::B(parts[1] == "1"),
+        other => panic!("unknown mock op {}", other),
+    }
+}
+
+/// Independent reference: the history as a plain map plus the two flags.
+#[derive(Clone, Default)]
+struct RefD {
+    map: HashMap<(i32, i32), u32>,
+    ao: bool,
+    ab: bool,
+    /// why the reference expects a panic (for the distribution)
+    why: Option<&'static str>,
+    skipped_outside: u64,
+    overwrites: u64,
+}
+impl RefD {
+    fn inside(p: (i64, i64)) -> bool {
+        p.0 >= 0 && p.0 < 64 && p.1 >= 0 && p.1 < 64
+    }
+    /// property text: "Drawing panics exactly when a pixel lies outside the display or is drawn a
+    /// second time while the respective check is enabled, and never otherwise."
+    fn draw(&mut self, p: (i64, i64), c: u32) -> bool {
+        if !Self::inside(p) {
+            if !self.ab {
+                self.why = Some("outside");
+                return false;
+            }
+            self.skipped_outside += 1;
+            return true;
+        }
+        let k = (p.0 as i32, p.1 as i32);
+        if self.map.contains_key(&k) {
+            if !self.ao {
+                self.why = Some("twice");
+                return false;
+            }
+            self.overwrites += 1;
+        }
+        self.map.insert(k, c);
+        true
+    }
+    fn area_points(r: &Rectangle) -> Vec<(i64, i64)> {
+        let mut v = Vec::new();
+        for y in 0..r.size.height as i64 {
+            for x in 0..r.size.width as i64 {
+                v.push((r.top_left.x as i64 + x, r.top_left.y as i64 + y));
+            }
+        }
+        v
+    }
+    /// true = completes, false = panics (the pixels before the offending one stay drawn)
+    fn apply(&mut self, op: &Op) -> bool {
+        match op {
+            Op::P(p, c) => self.draw((p.x as i64, p.y as i64), *c),
+            Op::I(px) => px.iter().all(|(p, c)| self.draw((p.x as i64, p.y as i64), *c)),
+            Op::F(r, c) => Self::area_points(r).into_iter().all(|p| self.draw(p, *c)),
+            Op::G(r, cs) => Self::area_points(r).into_iter().zip(cs.iter()).all(|(p, c)| self.draw(p, *c)),
+            Op::C(c) => {
+                let all = Rectangle::new(Point::zero(), Size::new(64, 64));
+                Self::area_points(&all).into_iter().all(|p| self.draw(p, *c))
+            }
+            Op::S(p, c) => {
+                if !Self::inside((p.x as i64, p.y as i64)) {
+                    self.why = Some("set-outside");
+                    return false;
+                }
+                match c {
+                    Some(c) => {
+                        self.map.insert((p.x, p.y), *c);
+                    }
+                    None => {
+                        self.map.remove(&(p.x, p.y));
+                    }
+                }
+                true
+            }
+            Op::O(v) => {
+                self.ao = *v;
+                true
+            }
+            Op::B(v) => {
+                self.ab = *v;
+                true
+            }
+        }
+    }
+    fn pmap(&self) -> PMap {
+        self.map.iter().map(|((x, y), c)| ((*y, *x), *c)).collect()
+    }
+    /// tight bounding box of the touched cells, zero-sized rectangle at the origin if none
+    fn bbox(&self) -> Rectangle {
+        if self.map.is_empty() {
+            return Rectangle::zero();
+        }
+        let x0 = self.map.keys().map(|k| k.0).min().unwrap();
+        let x1 = self.map.keys().map(|k| k.0).max().unwrap();
+        let y0 = self.map.keys().map(|k| k.1).min().unwrap();
+        let y1 = self.map.keys().map(|k| k.1).max().unwrap();
+        Rectangle::new(Point::new(x0, y0), Size::new((x1 - x0 + 1) as u32, (y1 - y0 + 1) as u32))
+    }
+}
+
+fn apply_real<C: ColNum>(d: &mut MockDisplay<C>, op: &Op) {
+    match op {
+        Op::P(p, c) => d.draw_pixel(*p, C::from_num(*c)),
+        Op::I(px) => d.draw_iter(px.iter().map(|(p, c)| Pixel(*p, C::from_num(*c)))).unwrap(),
+        Op::F(r, c) => d.fill_solid(r, C::from_num(*c)).unwrap(),
+        Op::G(r, cs) => d.fill_contiguous(r, cs.iter().map(|c| C::from_num(*c))).unwrap(),
+        Op::S(p, c) => d.set_pixel(*p, c.map(C::from_num)),
+        Op::C(c) => d.clear(C::from_num(*c)).unwrap(),
+        Op::O(v) => d.set_allow_overdraw(*v),
+        Op::B(v) => d.set_allow_out_of_bounds_drawing(*v),
+    }
+}
+
+/// get_pixel over the 64 x 64 cells; None if a call panicked
+fn dump<C: ColNum>(d: &MockDisplay<C>) -> Option<PMap> {
+    catch_unwind(AssertUnwindSafe(|| {
+        let mut m = PMap::new();
+        for y in 0..64 {
+            for x in 0..64 {
+                if let Some(c) = d.get_pixel(Point::new(x, y)) {
+                    m.insert((y, x), c.num());
+                }
+            }
+        }
+        m
+    }))
+    .ok()
+}
+fn fmt_dump(m: &Option<PMap>) -> String {
+    match m {
+        Some(m) => fmt_map(m),
+        None => "panic".into(),
+    }
+}
+
+struct Hist<C: ColNum> {
+    d: MockDisplay<C>,
+    n: usize,
+    ok: bool,
+    r: RefD,
+    rn: usize,
+    rok: bool,
+    nops: usize,
+}
+
+fn run_history<C: ColNum>(t: &mut Toks) -> Hist<C> {
+    let ao = t.u32() == 1;
+    let ab = t.u32() == 1;
+    let k = t.usize();
+    let ops: Vec<Op> = (0..k).map(|_| parse_op(t.str())).collect();
+    let mut d = MockDisplay::<C>::new();
+    d.set_allow_overdraw(ao);
+    d.set_allow_out_of_bounds_drawing(ab);
+    let mut n = 0;
+    let mut ok = true;
+    for op in &ops {
+        let dd = &mut d;
+        if catch_unwind(AssertUnwindSafe(|| apply_real(dd, op))).is_err() {
+            ok = false;
+            break;
+        }
+        n += 1;
+    }
+    let mut r = RefD { ao, ab, ..Default::default() };
+    let mut rn = 0;
+    let mut rok = true;
+    for op in &ops {
+        if !r.apply(op) {
+            rok = false;
+            break;
+        }
+        rn += 1;
+    }
+    Hist { d, n, ok, r, rn, rok, nops: k }
+}
+
+/// (rows, empty rows reported) parsed from the `{:?}` text; None if the frame is not as documented
+fn parse_debug(text: &str) -> Option<(Vec<String>, usize)> {
+    let mut lines: Vec<&str> = text.split('\n').collect();
+    if lines.pop() != Some("") || lines.pop() != Some("]") {
+        return None;
+    }
+    if lines.is_empty() || lines.remove(0) != "MockDisplay[" {
+        return None;
+    }
+    let mut skipped = 0;
+    if let Some(last) = lines.last() {
+        if last.starts_with('(') && last.ends_with(" empty rows skipped)") {
+            skipped = last[1..last.len() - " empty rows skipped)".len()].parse().ok()?;
+            lines.pop();
+        }
+    }
+    Some((lines.iter().map(|s| s.to_string()).collect(), skipped))
+}
+
+fn classify_pattern_panic(msg: &str) -> &'static str {
+    if msg.contains("must not be wider") {
+        "width"
+    } else if msg.contains("must not be taller") {
+        "height"
+    } else if msg.contains("Row #") {
+        "row"
+    } else if msg.contains("nvalid char in pattern") {
+        "char"
+    } else {
+        "other"
+    }
+}
+
+fn from_pattern_caught<C: ColNum + ColorMapping>(rows: &[&str]) -> Result<MockDisplay<C>, &'static str> {
+    match catch_unwind(AssertUnwindSafe(|| MockDisplay::<C>::from_pattern(rows))) {
+        Ok(d) => Ok(d),
+        Err(e) => {
+            let msg = if let Some(s) = e.downcast_ref::<&str>() {
+                s.to_string()
+            } else if let Some(s) = e.downcast_ref::<String>() {
+                s.clone()
+            } else {
+                String::new()
+            };
+            Err(classify_pattern_panic(&msg))
+        }
+    }
+}
+
+/// `from_pattern` of the Debug rows: "1" same display, "0" different, "pw/ph/pr/pc" panic kind
+fn round_trip<C: ColNum + ColorMapping>(d: &MockDisplay<C>) -> (String, Option<(Vec<String>, usize)>) {
+    let text = format!("{:?}", d);
+    let parsed = parse_debug(&text);
+    let rt = match &parsed {
+        None => "bad-frame".to_string(),
+        Some((rows, _)) => {
+            let refs: Vec<&str> = rows.iter().map(|s| s.as_str()).collect();
+            match from_pattern_caught::<C>(&refs) {
+                Ok(d2) => {
+                    if d2 == *d && *d == d2 {
+                        "1".into()
+                    } else {
+                        "0".into()
+                    }
+                }
+                Err("width") => "pw".into(),
+                Err("height") => "ph".into(),
+                Err("row") => "pr".into(),
+                Err("char") => "pc".into(),
+                Err(_) => "p?".into(),
+            }
+        }
+    };
+    (rt, parsed)
+}
+
+/// Debug rows expected from a cell map: 64 columns, trailing empty rows dropped
+fn expected_rows(ty: &str, m: &HashMap<(i32, i32), u32>) -> Option<(Vec<String>, usize)> {
+    let pal = palette(ty);
+    let last = m.keys().map(|k| k.1).max().map(|y| y + 1).unwrap_or(0);
+    let mut rows = Vec::new();
+    for y in 0..last {
+        let mut s = String::new();
+        for x in 0..64 {
+            match m.get(&(x, y)) {
+                None => s.push(' '),
+                Some(c) => s.push(pal.iter().find(|(_, v)| v == c)?.0),
+            }
+        }
+        rows.push(s);
+    }
+    Some((rows, 64 - last as usize))
+}
+
+fn hist<C: ColNum + ColorMapping>(ty: &str, op: &str, t: &mut Toks, ctx: &mut Ctx) -> String {
+    let a = run_history::<C>(t);
+    let b = run_history::<C>(t);
+    ctx.count("hist");
+    ctx.count(&format!("hist:flags:ao{}ab{}", a.r.ao as u8, a.r.ab as u8));
+    ctx.count(&format!(
+        "hist:len:{}",
+        match a.nops {
+            0 => "0",
+            1..=3 => "1-3",
+            4..=12 => "4-12",
+            _ => "13+",
+        }
+    ));
+    // --- panics_iff: panics exactly when the reference history says so, at the same operation
+    for (h, which) in [(&a, "first"), (&b, "second")] {
+        ctx.expect(h.ok == h.rok && h.n == h.rn, "panic-iff", || {
+            format!("{} history: real n={} ok={} expected n={} ok={} ({:?})", which, h.n, h.ok, h.rn, h.rok, h.r.why)
+        });
+    }
+    match a.r.why {
+        Some(w) if !a.rok => ctx.count(&format!("hist:panic:{}", w)),
+        _ => ctx.count("hist:complete"),
+    }
+    if a.r.skipped_outside > 0 {
+        ctx.count("hist:outside-pixels-skipped");
+    }
+    if a.r.overwrites > 0 {
+        ctx.count("hist:overdrawn");
+    }
+    if !a.r.map.is_empty() {
+        ctx.nontrivial(op);
+    }
+    // --- history_refines_map: get_pixel = last colour drawn / None, for all 64 x 64 cells
+    let da = dump(&a.d);
+    let db = dump(&b.d);
+    for (h, dm, which) in [(&a, &da, "first"), (&b, &db, "second")] {
+        let want = h.r.pmap();
+        ctx.expect(dm.as_ref() == Some(&want), "get-pixel-last-drawn", || {
+            format!("{} history: get_pixel dump {} expected {}", which, fmt_dump(dm), fmt_map(&want))
+        });
+    }
+    // --- affected_area_tight
+    let aa = a.d.affected_area();
+    let want_aa = a.r.bbox();
+    ctx.expect(aa == want_aa, "affected-area-tight", || format!("affected_area {} expected {}", fmt_rect(&aa), fmt_rect(&want_aa)));
+    let aab = b.d.affected_area();
+    let want_aab = b.r.bbox();
+    ctx.expect(aab == want_aab, "affected-area-tight", || format!("affected_area {} expected {}", fmt_rect(&aab), fmt_rect(&want_aab)));
+    // --- eq_iff_cells, diff_empty_iff
+    let eq = a.d == b.d;
+    let same = a.r.map == b.r.map;
+    ctx.count(if same { "hist:pair-equal" } else { "hist:pair-different" });
+    ctx.expect(eq == same && (b.d == a.d) == same, "eq-iff-cells", || format!("eq={} but cells agree={}", eq, same));
+    let df = a.d.diff(&b.d);
+    let ddf = dump(&df);
+    ctx.expect(ddf.as_ref().map(|m| m.is_empty()) == Some(same) && (df == MockDisplay::<Rgb888>::new()) == same, "diff-empty-iff", || {
+        format!("diff={} but cells agree={}", fmt_dump(&ddf), same)
+    });
+    {
+        // documented colour code of diff: green only in self, red only in other, blue both and different
+        let mut want = PMap::new();
+        for y in 0..64 {
+            for x in 0..64 {
+                let v = match (a.r.map.get(&(x, y)), b.r.map.get(&(x, y))) {
+                    (Some(_), None) => Some(0x00FF00),
+                    (None, Some(_)) => Some(0xFF0000),
+                    (Some(s), Some(o)) if s != o => Some(0x0000FF),
+                    _ => None,
+                };
+                if let Some(v) = v {
+                    want.insert((y, x), v);
+                }
+            }
+        }
+        ctx.expect(ddf.as_ref() == Some(&want), "diff-colours", || format!("diff={} expected {}", fmt_dump(&ddf), fmt_map(&want)));
+    }
+    // --- Debug text and pattern round trip
+    let text = format!("{:?}", a.d);
+    let (rt, parsed) = round_trip(&a.d);
+    match expected_rows(ty, &a.r.map) {
+        Some(want) => {
+            ctx.count("hist:debug-representable");
+            ctx.expect(parsed.as_ref() == Some(&want), "debug-rows", || format!("Debug rows {:?} expected {:?}", parsed, want));
+            ctx.expect(rt == "1", "pattern-debug-roundtrip", || format!("from_pattern(Debug rows) gives {}", rt));
+        }
+        None => {
+            // a colour outside the type's character set: Debug prints '?', which no pattern accepts
+            ctx.count("hist:debug-unrepresentable");
+            ctx.expect(rt == "pc", "debug-unrepresentable-not-rejected", || format!("from_pattern(Debug rows) gives {}", rt));
+        }
+    }
+    format!(
+        "n={} st={} c={} aa={} n2={} st2={} c2h={} eq={} diff={} dh={} rt={}",
+        a.n,
+        if a.ok { "ok" } else { "panic" },
+        fmt_dump(&da),
+        fmt_rect(&aa),
+        b.n,
+        if b.ok { "ok" } else { "panic" },
+        fnv(fmt_dump(&db).as_bytes()),
+        eq as u8,
+        fmt_dump(&ddf),
+        fnv(text.as_bytes()),
+        rt
+    )
+}
+
+fn pattern<C: ColNum + ColorMapping>(ty: &str, op: &str, t: &mut Toks, ctx: &mut Ctx) -> String {
+    let k = t.usize();
+    let rows: Vec<String> = (0..k).map(|_| t.str()[1..].replace('_', " ")).collect();
+    let refs: Vec<&str> = rows.iter().map(|s| s.as_str()).collect();
+    ctx.count("pattern");
+    let res = from_pattern_caught::<C>(&refs);
+    // expectation from the documented contract (rows of equal width <= 64, <= 64 rows, characters
+    // of the type's set or space)
+    let width = rows.first().map_or(0, |r| r.len());
+    let want_err = if width > 64 {
+        Some("width")
+    } else if rows.len() > 64 {
+        Some("height")
+    } else if rows.iter().any(|r| r.len() != width) {
+        Some("row")
+    } else if rows.iter().any(|r| r.chars().any(|c| c != ' ' && accepted(ty, c).is_none())) {
+        Some("char")
+    } else {
+        None
+    };
+    match res {
+        Err(kind) => {
+            ctx.count(&format!("pattern:err:{}", kind));
+            ctx.expect(want_err == Some(kind), "from-pattern-panic", || format!("panicked ({}) expected {:?}", kind, want_err));
+            format!("err={}", kind)
+        }
+        Ok(d) => {
+            ctx.count("pattern:ok");
+            ctx.expect(want_err.is_none(), "from-pattern-panic", || format!("accepted, expected panic {:?}", want_err));
+            let mut want: HashMap<(i32, i32), u32> = HashMap::new();
+            for (y, r) in rows.iter().enumerate() {
+                for (x, ch) in r.chars().enumerate() {
+                    if let Some(c) = accepted(ty, ch) {
+                        want.insert((x as i32, y as i32), c);
+                    }
+                }
+            }
+            if !want.is_empty() {
+                ctx.nontrivial(op);
+            }
+            let dm = dump(&d);
+            let wantm: PMap = want.iter().map(|((x, y), c)| ((*y, *x), *c)).collect();
+            ctx.expect(dm.as_ref() == Some(&wantm), "from-pattern-cells", || format!("{} expected {}", fmt_dump(&dm), fmt_map(&wantm)));
+            let (rt, parsed) = round_trip(&d);
+            // Debug output = the pattern, normalised (upper-case digits, 64 columns, trailing empty rows dropped)
+            let exp = expected_rows(ty, &want);
+            ctx.expect(exp.is_some() && parsed == exp, "debug-rows", || format!("Debug rows {:?} expected {:?}", parsed, exp));
+            ctx.expect(rt == "1", "pattern-debug-roundtrip", || format!("from_pattern(Debug rows) gives {}", rt));
+            let aa = d.affected_area();
+            let rd = RefD { map: want.clone(), ..Default::default() };
+            ctx.expect(aa == rd.bbox(), "affected-area-tight", || format!("affected_area {} expected {}", fmt_rect(&aa), fmt_rect(&rd.bbox())));
+            let (prow, e) = parsed.unwrap_or((vec![], 0));
+            let dbg = if prow.is_empty() { "-".to_string() } else { prow.iter().map(|r| r.replace(' ', "_")).collect::<Vec<_>>().join("/") };
+            let sw = d.swap_xy();
+            let dsw = dump(&sw);
+            let want_sw: PMap = want.iter().map(|((x, y), c)| ((*x, *y), *c)).collect();
+            ctx.expect(dsw.as_ref() == Some(&want_sw), "swap-xy", || format!("{}", fmt_dump(&dsw)));
+            let m = (1u64 << bits(ty)) as u32;
+            let mp = d.map(|c| C::from_num(((c.num() as u64 + 1) % m as u64) as u32));
+            let dmp = dump(&mp);
+            let want_mp: PMap = wantm.iter().map(|(k, c)| (*k, ((*c as u64 + 1) % m as u64) as u32)).collect();
+            ctx.expect(dmp.as_ref() == Some(&want_mp), "map", || format!("{}", fmt_dump(&dmp)));
+            format!(
+                "ok c={} aa={} e={} dbg={} rt={} sw={} mp={}",
+                fmt_dump(&dm),
+                fmt_rect(&aa),
+                e,
+                dbg,
+                rt,
+                fnv(fmt_dump(&dsw).as_bytes()),
+                fnv(fmt_dump(&dmp).as_bytes())
+            )
+        }
+    }
+}
+
+fn c2ch<C: ColNum + ColorMapping>(ty: &str, t: &mut Toks, ctx: &mut Ctx) -> String {
+    let cs = t.u32_list();
+    let pal = palette(ty);
+    let mut out = Vec::new();
+    for c in cs {
+        let ch = C::color_to_char(C::from_num(c));
+        out.push(ch as u32);
+        // char_to_color (color_to_char c) = c on the type's colour set; '?' (never ' ') elsewhere
+        match pal.iter().find(|(_, v)| *v == c) {
+            Some((pc, _)) => {
+                ctx.count("c2ch:in-palette");
+                let back = catch_unwind(AssertUnwindSafe(|| C::char_to_color(ch).num())).ok();
+                ctx.expect(ch == *pc && back == Some(c), "color-mapping-roundtrip", || format!("colour {} -> {:?} -> {:?}", c, ch, back))
+            }
+            None => {
+                ctx.count("c2ch:outside-palette");
+                ctx.expect(ch == '?', "color-mapping-roundtrip", || format!("colour {} outside the set prints {:?}", c, ch))
+            }
+        }
+    }
+    fmt_list(out)
+}
+
+fn ch2c<C: ColNum + ColorMapping>(ty: &str, t: &mut Toks, ctx: &mut Ctx) -> String {
+    let cs = t.u32_list();
+    let mut out = Vec::new();
+    for code in cs {
+        let ch = char::from_u32(code).expect("char code");
+        let r = catch_unwind(AssertUnwindSafe(|| C::char_to_color(ch).num())).ok();
+        ctx.count(if r.is_some() { "ch2c:accepted" } else { "ch2c:rejected" });
+        ctx.expect(r == accepted(ty, ch), "char-to-color-table", || format!("{:?} -> {:?} expected {:?}", ch, r, accepted(ty, ch)));
+        out.push(match r {
+            Some(v) => v.to_string(),
+            None => "p".to_string(),
+        });
+    }
+    if out.is_empty() {
+        "-".into()
+    } else {
+        out.join(",")
+    }
+}
+
+macro_rules! by_type {
+    ($ty:expr, $f:ident ( $($a:expr),* )) => {
+        match $ty {
+            "binary" => $f::<BinaryColor>($($a),*),
+            "gray2" => $f::<Gray2>($($a),*),
+            "gray4" => $f::<Gray4>($($a),*),
+            "gray8" => $f::<Gray8>($($a),*),
+            "rgb332" => $f::<Rgb332>($($a),*),
+            "rgb444" => $f::<Rgb444>($($a),*),
+            "rgb555" => $f::<Rgb555>($($a),*),
+            "bgr555" => $f::<Bgr555>($($a),*),
+            "rgb565" => $f::<Rgb565>($($a),*),
+            "bgr565" => $f::<Bgr565>($($a),*),
+            "rgb888" => $f::<Rgb888>($($a),*),
+            "bgr888" => $f::<Bgr888>($($a),*),
+            other => panic!("unknown colour type {}", other),
+        }
+    };
+}
+
+// ---------------------------------------------------------------------------------------------
+// generators
+// ---------------------------------------------------------------------------------------------
+fn gen_color(rng: &mut Rng, ty: &str) -> u32 {
+    let pal = palette(ty);
+    if rng.chance(4, 5) {
+        rng.pick(&pal).1
+    } else {
+        rng.below(1u64 << bits(ty)) as u32
+    }
+}
+
+struct PtGen {
+    /// side of the in-range region the points cluster in (small = many repeats)
+    region: i64,
+    ox: i64,
+    oy: i64,
+    /// chance (in 1/100) of an out-of-range point
+    out_pct: u64,
+    /// points already handed out (to avoid repeats when asked to)
+    used: Vec<(i64, i64)>,
+    avoid_repeats: bool,
+}
+impl PtGen {
+    fn point(&mut self, rng: &mut Rng) -> (i64, i64) {
+        if rng.below(100) < self.out_pct {
+            // out of range: just outside an edge, a corner, or far away
+            return match rng.below(6) {
+                0 => (-1, rng.range(0, 63)),
+                1 => (64, rng.range(0, 63)),
+                2 => (rng.range(0, 63), -1),
+                3 => (rng.range(0, 63), 64),
+                4 => (*rng.pick(&[-1i64, 64]), *rng.pick(&[-1i64, 64])),
+                _ => (rng.range(-200, 300), rng.range(-200, 300)),
+            };
+        }
+        for _ in 0..20 {
+            let p = match rng.below(8) {
+                0 => (*rng.pick(&[0i64, 63]), *rng.pick(&[0i64, 63])),
+                1 => (rng.range(0, 63), rng.range(0, 63)),
+                _ => ((self.ox + rng.range(0, self.region - 1)).min(63), (self.oy + rng.range(0, self.region - 1)).min(63)),
+            };
+            if !self.avoid_repeats || !self.used.contains(&p) {
+                self.used.push(p);
+                return p;
+            }
+        }
+        (rng.range(0, 63), rng.range(0, 63))
+    }
+}
+
+fn gen_op(rng: &mut Rng, ty: &str, pg: &mut PtGen, allow_big: bool) -> String {
+    match rng.below(100) {
+        0..=44 => {
+            let p = pg.point(rng);
+            format!("p:{},{},{}", p.0, p.1, gen_color(rng, ty))
+        }
+        45..=64 => {
+            let n = rng.below(6);
+            if n == 0 {
+                "i:-".to_string()
+            } else {
+                let v: Vec<String> = (0..n)
+                    .map(|_| {
+                        let p = pg.point(rng);
+                        format!("{},{},{}", p.0, p.1, gen_color(rng, ty))
+                    })
+                    .collect();
+                format!("i:{}", v.join(";"))
+            }
+        }
+        65..=76 => {
+            let p = pg.point(rng);
+            let w = rng.below(5);
+            let h = rng.below(5);
+            format!("f:{},{},{},{},{}", p.0, p.1, w, h, gen_color(rng, ty))
+        }
+        77..=84 => {
+            let p = pg.point(rng);
+            let w = rng.below(4);
+            let h = rng.below(4);
+            let n = (w * h) as i64 + rng.range(-2, 2);
+            let cs: Vec<String> = (0..n.max(0)).map(|_| gen_color(rng, ty).to_string()).collect();
+            format!("g:{},{},{},{}:{}", p.0, p.1, w, h, if cs.is_empty() { "-".to_string() } else { cs.join(",") })
+        }
+        85..=92 => {
+            let p = pg.point(rng);
+            if rng.chance(1, 2) {
+                format!("s:{},{},n", p.0, p.1)
+            } else {
+                format!("s:{},{},{}", p.0, p.1, gen_color(rng, ty))
+            }
+        }
+        93..=94 => {
+            if allow_big {
+                format!("c:{}", gen_color(rng, ty))
+            } else {
+                let p = pg.point(rng);
+                format!("p:{},{},{}", p.0, p.1, gen_color(rng, ty))
+            }
+        }
+        95..=97 => format!("o:{}", rng.below(2)),
+        _ => format!("b:{}", rng.below(2)),
+    }
+}
+
+fn gen_history(rng: &mut Rng, ty: &str, maxlen: u64, ao: bool, ab: bool) -> Vec<String> {
+    let len = rng.range(0, maxlen as i64) as usize;
+    let region = *rng.pick(&[2i64, 3, 6, 64]);
+    let mut pg = PtGen {
+        region,
+        ox: rng.range(0, 64 - region),
+        oy: rng.range(0, 64 - region),
+        out_pct: if ab { *rng.pick(&[0u64, 15, 40]) } else { *rng.pick(&[0u64, 0, 5, 15]) },
+        used: Vec::new(),
+        avoid_repeats: !ao && rng.chance(2, 3),
+    };
+    let allow_big = rng.chance(1, 8);
+    (0..len).map(|_| gen_op(rng, ty, &mut pg, allow_big)).collect()
+}
+
+fn fmt_history(ao: bool, ab: bool, ops: &[String]) -> String {
+    let mut s = format!("{} {} {}", ao as u8, ab as u8, ops.len());
+    for o in ops {
+        s.push(' ');
+        s.push_str(o);
+    }
+    s
+}
+
+/// second history: a permutation / small mutation / copy of the first, or an unrelated one
+fn gen_second(rng: &mut Rng, ty: &str, maxlen: u64, ao: bool, ab: bool, first: &[String]) -> (bool, bool, Vec<String>) {
+    let mut ops: Vec<String> = first.to_vec();
+    match rng.below(10) {
+        0..=3 => {
+            // permutation (Fisher-Yates)
+            for i in (1..ops.len()).rev() {
+                let j = rng.below(i as u64 + 1) as usize;
+                ops.swap(i, j);
+            }
+        }
+        4 => {}
+        5..=6 => {
+            if !ops.is_empty() {
+                let i = rng.below(ops.len() as u64) as usize;
+                ops.remove(i);
+            }
+        }
+        7 => {
+            let mut pg = PtGen { region: 64, ox: 0, oy: 0, out_pct: 5, used: vec![], avoid_repeats: false };
+            let i = rng.below(ops.len() as u64 + 1) as usize;
+            ops.insert(i, gen_op(rng, ty, &mut pg, false));
+        }
+        8 => {
+            // change one colour only
+            if !ops.is_empty() {
+                let i = rng.below(ops.len() as u64) as usize;
+                if ops[i].starts_with("p:") {
+                    let head: Vec<&str> = ops[i].rsplitn(2, ',').collect();
+                    ops[i] = format!("{},{}", head[1], gen_color(rng, ty));
+                }
+            }
+        }
+        _ => {
+            let ao2 = rng.chance(1, 2);
+            let ab2 = rng.chance(1, 2);
+            return (ao2, ab2, gen_history(rng, ty, maxlen, ao2, ab2));
+        }
+    }
+    let (ao2, ab2) = if rng.chance(1, 4) { (rng.chance(1, 2), rng.chance(1, 2)) } else { (ao, ab) };
+    (ao2, ab2, ops)
+}
+
+fn gen_pattern(rng: &mut Rng, ty: &str) -> String {
+    let pal = palette(ty);
+    let (w, h) = match rng.below(10) {
+        0 => (64, rng.range(0, 3)),
+        1 => (rng.range(0, 5), 64),
+        2 => (65, 1),
+        3 => (2, 65),
+        4 => (64, 64),
+        _ => (rng.range(0, 12), rng.range(0, 8)),
+    };
+    let ragged = rng.chance(1, 12);
+    let bad = rng.chance(1, 10);
+    let lower = rng.chance(1, 8);
+    let density = *rng.pick(&[10u64, 50, 90]);
+    let mut rows = Vec::new();
+    for y in 0..h {
+        let mut r = String::from("|");
+        let mut ww = w;
+        if ragged && y > 0 && rng.chance(1, 3) {
+            ww = (w + rng.range(-1, 1)).max(0);
+        }
+        for _ in 0..ww {
+            if rng.below(100) >= density {
+                r.push('_');
+            } else if bad && rng.chance(1, 6) {
+                r.push(*rng.pick(&['?', 'x', '4', 'G', 'g', 'k', '-', '\u{e9}', '\u{ff11}', '\u{663}']));
+            } else {
+                let c = rng.pick(&pal).0;
+                r.push(if lower { c.to_ascii_lowercase() } else { c });
+            }
+        }
+        rows.push(r);
+    }
+    let mut s = format!("mock.pattern {} {}", ty, rows.len());
+    for r in rows {
+        s.push(' ');
+        s.push_str(&r);
+    }
+    s
+}
 
 impl Module for M {
     fn name(&self) -> &'static str {
         "mock"
     }
     fn rule(&self) -> &'static str {
-        "not built yet"
+        "histories: every sequence up to length 3 (quick) / 4 (thorough) over an alphabet of draw_pixel / fill_solid / set_pixel ops on \
+         corner, repeated and out-of-range points under all four flag combinations, then seeded random histories (<= 12 / <= 40 ops: \
+         draw_pixel, draw_iter batches, fill_solid, fill_contiguous, set_pixel, clear, flag changes; clustered, edge and out-of-range \
+         points; all 12 colour types) each paired with a permuted / mutated / unrelated second history; patterns: random and boundary \
+         sizes (0, 64, 65 rows / columns, ragged rows, characters outside the set, lower case, non-ASCII); get_pixel probes inside, aliasing \
+         and outside; complete colour tables of the small types. A history is non-trivial when at least one cell is touched at its end, \
+         a pattern when it is accepted and has a non-space character; distinct = distinct op text."
     }
-    fn generate(&self, _pid: &str, _tier: Tier, _rng: &mut Rng, _emit: &mut dyn FnMut(String)) {}
-    fn execute(&self, op: &str, _ctx: &mut Ctx) -> String {
-        panic!("unknown op {}", op)
+
+    fn generate(&self, _pid: &str, tier: Tier, rng: &mut Rng, emit: &mut dyn FnMut(String)) {
+        let quick = tier == Tier::Quick;
+        // --- colour tables: every raw value of the small types, the palette and neighbours of the large ones
+        for ty in TYPES {
+            let b = bits(ty);
+            let mut cs: Vec<u32> = if b <= 8 { (0..(1u32 << b)).collect() } else { vec![] };
+            for (_, v) in palette(ty) {
+                for d in [0i64, 1, -1] {
+                    let c = v as i64 + d;
+                    if c >= 0 && c < (1i64 << b) {
+                        cs.push(c as u32);
+                    }
+                }
+            }
+            for _ in 0..(if quick { 40 } else { 400 }) {
+                cs.push(rng.below(1u64 << b) as u32);
+            }
+            for chunk in cs.chunks(64) {
+                emit(format!("mock.c2ch {} {}", ty, fmt_list(chunk.iter())));
+            }
+            let mut codes: Vec<u32> = (32..127).collect();
+            codes.extend([0u32, 9, 10, 127, 128, 0xb2, 0xe9, 0x663, 0x2161, 0xff11, 0xff21, 0x1d7d8]);
+            emit(format!("mock.ch2c {} {}", ty, fmt_list(codes.iter())));
+        }
+        // --- get_pixel probes: inside, aliasing (x >= 64), outside, negative
+        for y in [-65i32, -64, -2, -1, 0, 1, 31, 62, 63, 64, 65, 1000] {
+            for x in [-4097i32, -4096, -65, -64, -1, 0, 1, 63, 64, 65, 127, 128, 4031, 4032, 4095, 4096, 100000] {
+                emit(format!("mock.get {} {}", x, y));
+            }
+        }
+        emit(format!("mock.get {} {}", i32::MAX, 0));
+        emit(format!("mock.get {} {}", 0, i32::MAX));
+        emit(format!("mock.get {} {}", i32::MIN, i32::MIN));
+        emit(format!("mock.get {} {}", i32::MIN, i32::MAX));
+        // --- exhaustive short histories over a small alphabet, all four flag combinations
+        let alphabet: Vec<&str> = if quick {
+            vec!["p:0,0,1", "p:0,0,0", "p:63,63,1", "p:64,0,1", "p:-1,5,1", "s:0,0,n", "f:62,62,3,3,1"]
+        } else {
+            vec!["p:0,0,1", "p:0,0,0", "p:63,63,1", "p:64,0,1", "p:-1,5,1", "s:0,0,n", "f:62,62,3,3,1", "i:5,5,1;5,5,0", "s:0,64,1"]
+        };
+        let maxk = if quick { 3 } else { 4 };
+        for ao in [false, true] {
+            for ab in [false, true] {
+                let mut seqs: Vec<Vec<&str>> = vec![vec![]];
+                let mut frontier: Vec<Vec<&str>> = vec![vec![]];
+                for _ in 0..maxk {
+                    let mut next = Vec::new();
+                    for s in &frontier {
+                        for a in &alphabet {
+                            let mut s2 = s.clone();
+                            s2.push(*a);
+                            next.push(s2);
+                        }
+                    }
+                    seqs.extend(next.iter().cloned());
+                    frontier = next;
+                }
+                for s in seqs {
+                    let ops: Vec<String> = s.iter().map(|x| x.to_string()).collect();
+                    // second history: the reverse of the first under the same flags
+                    let mut rev = ops.clone();
+                    rev.reverse();
+                    emit(format!("mock.hist binary {} {}", fmt_history(ao, ab, &ops), fmt_history(ao, ab, &rev)));
+                }
+            }
+        }
+        // --- patterns
+        let npat = if quick { 600 } else { 12_000 };
+        for i in 0..npat {
+            emit(gen_pattern(rng, TYPES[i % TYPES.len()]));
+        }
+        // --- random histories
+        let (nh, maxlen) = if quick { (3000usize, 12u64) } else { (50_000usize, 40u64) };
+        for i in 0..nh {
+            let ty = TYPES[(i / 4) % TYPES.len()];
+            let ao = i & 1 == 1;
+            let ab = i & 2 == 2;
+            let first = gen_history(rng, ty, maxlen, ao, ab);
+            let (ao2, ab2, second) = gen_second(rng, ty, maxlen, ao, ab, &first);
+            emit(format!("mock.hist {} {} {}", ty, fmt_history(ao, ab, &first), fmt_history(ao2, ab2, &second)));
+        }
+    }
+
+    fn execute(&self, op: &str, ctx: &mut Ctx) -> String {
+        let mut t = Toks::new(op);
+        match t.str() {
+            "mock.hist" => {
+                let ty = t.str();
+                by_type!(ty, hist(ty, op, &mut t, ctx))
+            }
+            "mock.pattern" => {
+                let ty = t.str();
+                by_type!(ty, pattern(ty, op, &mut t, ctx))
+            }
+            "mock.get" => {
+                let p = t.point();
+                ctx.count("get");
+                let mut d = MockDisplay::<Rgb888>::new();
+                for i in 0..4096i32 {
+                    if i % 3 != 0 {
+                        d.set_pixel(Point::new(i % 64, i / 64), Some(Rgb888::from_num(i as u32 + 1)));
+                    }
+                }
+                let r = catch_unwind(AssertUnwindSafe(|| d.get_pixel(p)));
+                let inside = p.x >= 0 && p.x < 64 && p.y >= 0 && p.y < 64;
+                if inside {
+                    ctx.count("get:inside");
+                    ctx.nontrivial(op);
+                    let i = p.x + p.y * 64;
+                    let want = if i % 3 != 0 { Some(Rgb888::from_num(i as u32 + 1)) } else { None };
+                    ctx.expect(matches!(&r, Ok(v) if *v == want), "get-pixel-last-drawn", || format!("get_pixel({:?})", p));
+                } else {
+                    // outside the display `get_pixel` is not claimed by the property (observation only)
+                    ctx.count(if r.is_ok() { "get:outside-aliases-a-cell" } else { "get:outside-panics" });
+                }
+                match r {
+                    Err(_) => "panic".into(),
+                    Ok(None) => "none".into(),
+                    Ok(Some(c)) => format!("some:{}", c.num()),
+                }
+            }
+            "mock.c2ch" => {
+                let ty = t.str();
+                by_type!(ty, c2ch(ty, &mut t, ctx))
+            }
+            "mock.ch2c" => {
+                let ty = t.str();
+                by_type!(ty, ch2c(ty, &mut t, ctx))
+            }
+            other => panic!("unknown op {}", other),
+        }
     }
 }
